@@ -18,6 +18,15 @@ import (
 
 const Root = "/verif"
 
+// outRoot is where evidence and replays go: /verif normally, /verif/.tmp/scratch when the check
+// runs against a scratch worktree (VERIF_REPO), so experiments never clobber real evidence.
+func outRoot() string {
+	if r := os.Getenv("VERIF_REPO"); r != "" && r != "/repo" {
+		return filepath.Join(Root, ".tmp", "scratch")
+	}
+	return Root
+}
+
 type Check struct {
 	ID     string
 	Tier   string
@@ -226,7 +235,7 @@ func (c *Check) Finish(states, transitions, validated int64, rule string) {
 			continue
 		}
 		violations++
-		dir := filepath.Join(Root, "replays", c.ID)
+		dir := filepath.Join(outRoot(), "replays", c.ID)
 		os.MkdirAll(dir, 0o755)
 		path := filepath.Join(dir, safeName(k)+".json")
 		b, _ := json.MarshalIndent(map[string]any{"property": c.ID, "key": k, "clause": f.Clause, "case": f.Case, "detail": f.Detail, "count": f.Count}, "", " ")
@@ -285,9 +294,9 @@ func (c *Check) Finish(states, transitions, validated int64, rule string) {
 		evd["assumptions"] = []string{}
 	}
 	b, _ := json.MarshalIndent(evd, "", " ")
-	os.MkdirAll(filepath.Join(Root, "evidence"), 0o755)
+	os.MkdirAll(filepath.Join(outRoot(), "evidence"), 0o755)
 	if c.Replay == "" {
-		os.WriteFile(filepath.Join(Root, "evidence", c.ID+".json"), b, 0o644)
+		os.WriteFile(filepath.Join(outRoot(), "evidence", c.ID+".json"), b, 0o644)
 	}
 	for _, l := range lines {
 		fmt.Println(l)
